@@ -1,7 +1,7 @@
 #!/venv/bin/python
 """Run every kept seeded change (seeded/*/patch.diff) and every own mutant (mutants/*.diff) against the checks named in
 its meta / in tools/mutant_table.sh and record exit code + violation class in selftest/seeded_matrix.json.
-usage: tools/seeded_matrix.py [name-prefix]"""
+usage: tools/seeded_matrix.py [name-prefix or regex]"""
 import json
 import os
 import re
@@ -33,7 +33,7 @@ for name in sorted(OWN):
     if os.path.exists(path):
         jobs.append(('own:' + name, path, OWN[name]))
 for name, patch, props in jobs:
-    if not name.startswith(prefix):
+    if not (name.startswith(prefix) or re.search(prefix, name)):
         continue
     res = subprocess.run([os.path.join(HERE, 'tools', 'try_mutant.sh'), patch] + props, capture_output=True, text=True, check=False)
     row = {}
